@@ -60,6 +60,8 @@ impl<'a> Parser<'a> {
         while oper_prec < self.current_token.get_oper_prec() {
             #[cfg(feature = "verif_hooks")]
             crate::verif_hooks::tick(1);
+            #[cfg(feature = "verif_hooks")]
+            crate::verif_hooks::event_loop(oper_prec.clone() as u8);
             if self.current_token == Token::Eof {
                 break;
             }
